@@ -167,6 +167,12 @@ func baseChain(newState bool) *memory.Database {
 			hx.Fatalf("base chain: %v", err)
 		}
 	}
+	// the base image is that of a pruning node (retention floor 22 blocks below the head): the filter
+	// initialisation then reads ~20 headers instead of 8190, and the image is small. Non-pruned
+	// rebuilds from genesis are exercised by the short universe.
+	if _, _, err := pruner.PruneUpto(context.Background(), base, W-24, 10<<20); err != nil {
+		hx.Fatalf("base chain prune: %v", err)
+	}
 	baseImages[newState] = base
 	return base
 }
